@@ -3,6 +3,7 @@ package checks
 
 import (
 	"sort"
+	"time"
 
 	"verif/vp"
 )
@@ -45,3 +46,8 @@ func IDs() []string {
 }
 
 func thorough(tier string) bool { return tier == "thorough" }
+
+// Deadline is the wall-clock instant after which enumerations stop and report exhaustive:false.
+var Deadline time.Time
+
+func expired() bool { return !Deadline.IsZero() && time.Now().After(Deadline) }
